@@ -51,6 +51,9 @@ class WalGen:
         self.snap = None
         self.ident = None
         self.wellformed = True  # reference log meaningful (only well-formed batches so far)
+        self.contract = not wild  # what the consensus library guarantees: batches above the stored commit, commit inside the log,
+        #                           snapshot term = term of the entry at the snapshot index
+        self.commit = 0
 
     def batch(self):
         rng = self.rng
@@ -60,7 +63,8 @@ class WalGen:
         if self.last == 0 or r < 0.45:
             i0 = self.last + 1                       # plain append
         elif r < 0.9:
-            i0 = rng.randrange(1, self.last + 1)     # conflicting overwrite
+            lo = self.commit + 1 if self.contract else 1
+            i0 = rng.randrange(lo, self.last + 1) if lo <= self.last else self.last + 1   # conflicting overwrite (never of committed entries)
         else:
             i0 = self.last + 1
         n = rng.choice([1, 1, 2, 3, 4])
@@ -68,6 +72,9 @@ class WalGen:
             i0 = max(1, MAXI - n + 1)
             if i0 > self.last + 1:
                 i0 = self.last + 1
+                n = max(1, min(n, MAXI - i0 + 1))
+            if self.contract and i0 <= self.commit:
+                i0 = min(self.commit + 1, self.last + 1)
                 n = max(1, min(n, MAXI - i0 + 1))
         items = []
         for j in range(n):
@@ -99,21 +106,27 @@ class WalGen:
         c = rng.choice(["write"] * 6 + ["save"] * 2 + ["hard", "snap", "ident", "clear", "reset"])
         if c in ("write", "save"):
             items = self.batch()
+            newlast = items[-1][2]
             if c == "write":
                 self.ops.append(["write", items])
             else:
-                hs = [self.term, rng.randrange(4), rng.randrange(0, self.last + 2)] if rng.random() < 0.6 else None
+                # a Ready with entries and a hard state whose commit often covers the new entries
+                cm = rng.choice([newlast, newlast, rng.randrange(self.commit, newlast + 1)]) if self.contract else rng.randrange(0, self.last + 2)
+                hs = [self.term, rng.randrange(4), cm] if rng.random() < 0.75 else None
                 self.ops.append(["save", items] + ([hs] if hs else []))
                 if hs and tuple(hs) != (0, 0, 0):
-                    self.hs_after = tuple(hs)
                     self.hs = tuple(hs)
+                    self.commit = cm
             self.apply_spec(items)
         elif c == "hard":
-            hs = (self.term, rng.randrange(4), rng.randrange(0, self.last + 1))
+            hs = (self.term, rng.randrange(4), rng.randrange(self.commit if self.contract else 0, self.last + 1) if self.last >= self.commit else self.commit)
             self.ops.append(["hard"] + list(hs))
             self.hs = hs
+            self.commit = hs[2]
         elif c == "snap":
-            s = (rng.randrange(0, self.last + 1), rng.randrange(0, self.term + 1), rng.randrange(1, 9))
+            si = rng.randrange(0, self.last + 1)
+            st = (self.spec[si][1] if si in self.spec else 0) if self.contract else rng.randrange(0, self.term + 1)
+            s = (si, st, rng.randrange(1, 9))
             self.ops.append(["snap"] + list(s))
             self.snap = s
         elif c == "ident":
@@ -122,11 +135,11 @@ class WalGen:
             self.ident = i
         elif c == "clear":
             self.ops.append(["clear"])
-            self.spec, self.last, self.hs, self.snap, self.ident = {}, 0, None, None, None
+            self.spec, self.last, self.hs, self.snap, self.ident, self.commit = {}, 0, None, None, None, 0
         elif c == "reset":
             t, cm = self.term, rng.randrange(0, min(self.last, 6) + 1)
             self.ops.append(["reset", t, cm])
-            self.spec, self.last, self.hs, self.snap, self.ident = {}, cm, (t, 0, cm), (cm, t, 0), None
+            self.spec, self.last, self.hs, self.snap, self.ident, self.commit = {}, cm, (t, 0, cm), (cm, t, 0), None, cm
 
 
 def coq_items(items):
@@ -134,7 +147,8 @@ def coq_items(items):
 
 
 def coq_wops(op):
-    """engine op -> list of model ops (save = write [+ hard])"""
+    """engine op -> the model's write units of it, in the order the code issues them: the observation after the
+    last one is the post state, the observations after the earlier ones are the crash states"""
     k = op[0]
     if k == "write":
         return ["WWrite %s" % coq_items(op[1])]
@@ -150,8 +164,9 @@ def coq_wops(op):
     if k == "ident":
         return ["WIdent (%d,%d,%d,%d)" % tuple(op[1:5])]
     if k == "clear":
-        return ["WClear"]
-    return ["WReset %d %d" % (op[1], op[2])]
+        return ["WUnit UClearMeta", "WUnit UClearEntries"]
+    return ["WUnit UClearMeta", "WUnit UClearEntries", "WHard (%d,0,%d)" % (op[1], op[2]), "WSnap (%d,%d,0)" % (op[2], op[1]),
+            "WUnit (USetLast %d)" % op[2]]
 
 
 def parse_entries(obs, pos, n):
@@ -476,6 +491,30 @@ def run(ctx):
             if g.expect is None:
                 continue
             spec, last, hs, snap, ident, inv, wf = g.expect[si]
+            # crash points: what a restarted node would be handed after each prefix of this operation's write units
+            # (and after the whole operation) must be a state the consensus library accepts
+            if wf and getattr(g, "contract", False):
+                bad_c = None
+                for ci, cobs in enumerate((st.get("crash") or []) + [st["post"]]):
+                    dc = decode_obs(cobs)
+                    if dc["ident"] is None or dc["hs"] is None:
+                        continue            # HasWal is false: the node does not use this WAL
+                    ra_c = dc["readall"]
+                    if ra_c[0] == "err":
+                        bad_c = (ci, "ReadAll fails with code %d" % ra_c[1], dc["hs"], dc["last"])
+                    else:
+                        sidx_c = dc["snap"][0] if dc["snap"] else 0
+                        if dc["hs"][2] > max(sidx_c + len(ra_c[2]), sidx_c):
+                            bad_c = (ci, "stored commit index is beyond the stored log", dc["hs"], dc["last"])
+                    if bad_c:
+                        break
+                if bad_c:
+                    nunits = len(st.get("crash") or []) + 1
+                    pred_fail.append(("C16:crash-inconsistent", "after a crash inside an operation (prefix of its write units) the restarted node would hand "
+                                      "the consensus library an inconsistent state: " + bad_c[1],
+                                      {"ops": ops_so_far, "units_of_last_operation": nunits, "units_durable": bad_c[0] + 1,
+                                       "hardstate": bad_c[2], "last_index": bad_c[3]}))
+                    break
             d = decode_obs(st["post"])
             if not d["complete"]:
                 pred_fail.append(("C16:obs", "observation could not be decoded", {"ops": ops_so_far}))
@@ -642,14 +681,20 @@ def run(ctx):
     def num(x):
         return str(UNKNOWN if x < 0 else x)
     items = []
+    unit_mismatch = None
     for g, r in zip(corpus + gens, wres):
         steps = []
         for op, st in zip(g.ops, r["steps"]):
             if st.get("p"):
                 break
             mops = coq_wops(op)
-            for mo in mops[:-1]:
-                steps.append("(%s, [])" % mo)
+            crash = st.get("crash") or []
+            if len(crash) != len(mops) - 1:
+                unit_mismatch = unit_mismatch or {"ops": g.ops[: len(steps) + 1], "op": op, "units_in_model": len(mops),
+                                                  "units_written_by_the_code": len(crash) + 1}
+                crash = (crash + [[UNKNOWN]] * len(mops))[: len(mops) - 1]
+            for mo, cob in zip(mops[:-1], crash):
+                steps.append("(%s, [%s])" % (mo, ";".join(num(x) for x in cob)))
             steps.append("(%s, [%s])" % (mops[-1], ";".join(num(x) for x in st["post"])))
         items.append("(%d%%nat, [%s], [%s], [%s], [%s])" % (MAXI, ";".join(map(str, BLOCKS)), ";".join(map(str, CCIDS)),
                                                              ";".join("(%d,%d)" % tuple(q) for q in g.qs), ";\n ".join(steps)))
@@ -787,6 +832,8 @@ def run(ctx):
     if bad_s and not corr_broken:
         corr_broken = ("model/implementation differ on %d membership request sequences" % len(bad_s),
                        [dict(case=seq_cases[i], impl=sres[i]) for i in bad_s[:3]])
+    if unit_mismatch and not corr_broken:
+        corr_broken = ("an operation writes a different number of DB units than the model's decomposition", unit_mismatch)
     if bad_w and not corr_broken:
         allg = corpus + gens
         bad_w.sort(key=lambda x: (len(allg[x[0]].ops), x[1]))
@@ -843,6 +890,7 @@ def run(ctx):
                                      "validate_family": "applied = first k of 5 members (k=0..5) x removed in {[],[6],[7],[6,7]} x candidate id/name/"
                                                         "address/peer from {empty, duplicate of first, duplicate of last, removed id, fresh, invalid address} x "
                                                         "{add, remove, other}" + (" (1500 sampled)" if quick else " (complete)"),
+                                     "crash_states_observed": sum(len(st.get("crash") or []) for r in wres for st in r["steps"]),
                                      "entries_to_apply_cases": len(eta_cases), "trigger_snapshot_cases": len(ts_cases), "proposal_slot_sequences": len(prop_cases),
                                      "replay_runs": sum(1 for g, r in zip(corpus + gens, wres) for st in r["steps"] if not st.get("p") and isinstance(decode_obs(st["post"])["replay"], dict)),
                                      "request_sequences": len(seq_cases), "request_sequence_steps": seq_steps,
